@@ -1,5 +1,6 @@
 import Infretis.Lemmas.EngineLoopsPath
 import Infretis.Lemmas.EnginePropagate
+import Infretis.Lemmas.EngineLoopsLimit
 /-!
 # C12 — every engine returns the trajectory it actually ran
 
@@ -760,6 +761,53 @@ theorem lammps_index_error_leaves_program_running_counterexample :
     R.raised = some .index ∧ R.dead = false ∧ R.killed = false ∧ R.es = [] ∧
     (gmxExt .repaired { demoCfg with maxlen := 0 } (demoSched (fun _ => 2) 30) 0 1 demoFrames 50).raised = some .index ∧
     (gmxExt .repaired { demoCfg with maxlen := 0 } (demoSched (fun _ => 2) 30) 0 1 demoFrames 50).dead = true := by
+  decide +kernel
+
+/-- **The in-process loop reaches the length limit — composed `propagate`, every subcycles ≥ 1, ASE and TurtleMD**:
+    (a) if no frame before index `maxlen − 1` is outside the interfaces, the path has exactly `maxlen` frames (the
+    loop bound `range(subcycles * maxlen)` / `subcycles * maxlen + 1` systems is long enough to generate the frame with
+    index `maxlen − 1`), nothing is raised, and success is reported iff that last frame is outside;
+    (b) if the first outside frame has index `f ≤ maxlen − 1`, the path has exactly `f + 1` frames and success is
+    reported.  Frames are the samples `k·subcycles` of the dynamics started from the phase point. -/
+theorem inproc_reaches_length_limit (c : Cfg) (hm : 0 < c.maxlen) (sub : Nat) (hsub : 0 < sub) (step : Frame → Frame)
+    (ase : Bool) (reverse : Bool) (st : Store) (p : Point) (f0 : Frame) (hp : PointHas st p f0) :
+    ∃ out, propagateInproc c sub step ase reverse st p = some out ∧
+      ((∀ k, k + 1 < c.maxlen → ¬ Outside { c with rev := reverse }
+            (sampleOrd { c with rev := reverse } sub (iter step (if reverse != p.velRev then flipV f0 else f0)) k)) →
+        out.res.es.length = c.maxlen ∧ out.res.raised = none ∧
+        (out.res.success = true ↔ Outside { c with rev := reverse }
+            (sampleOrd { c with rev := reverse } sub (iter step (if reverse != p.velRev then flipV f0 else f0)) (c.maxlen - 1)))) ∧
+      (∀ f, f < c.maxlen →
+        (∀ k, k < f → ¬ Outside { c with rev := reverse }
+            (sampleOrd { c with rev := reverse } sub (iter step (if reverse != p.velRev then flipV f0 else f0)) k)) →
+        Outside { c with rev := reverse }
+            (sampleOrd { c with rev := reverse } sub (iter step (if reverse != p.velRev then flipV f0 else f0)) f) →
+        out.res.es.length = f + 1 ∧ out.res.raised = none ∧ out.res.success = true) := by
+  have hs := startFrame_spec reverse st p f0 hp
+  refine ⟨_, propagateInproc_eq c sub step ase reverse st p _ hs, ?_, ?_⟩
+  · intro hin
+    simp only [propagateSetup_velRev]
+    have h := inproc_stops_at { c with rev := reverse } sub hsub
+      (iter step (if reverse != p.velRev then flipV f0 else f0)) ase (c.maxlen - 1) (by simp only; omega)
+      (fun k hk => hin k (by omega)) (Or.inr (by simp only; omega))
+    refine ⟨by rw [h.1]; omega, h.2.1, h.2.2⟩
+  · intro f hf hin hout
+    simp only [propagateSetup_velRev]
+    have h := inproc_stops_at { c with rev := reverse } sub hsub
+      (iter step (if reverse != p.velRev then flipV f0 else f0)) ase f hf hin (Or.inl hout)
+    exact ⟨h.1, h.2.1, h.2.2.mpr hout⟩
+
+/-- free flight from cid 3 with velocity +1 and subcycles 2 (samples 3, 5, 7, 9, …), right interface 8: limits 2 and 3 →
+    exactly 2 / 3 frames, no success; limit 4 → the crossing frame 9 has index 3 = maxlen − 1: 4 frames, success;
+    limit 9 → still 4 frames -/
+example : ((propagateInproc { demoCfg with maxlen := 2 } 2 demoStep true false demoStore ⟨.user 1, some 1, false⟩).map
+      (fun o => (o.res.es.map (·.order), o.res.success))) = some ([3, 5], false) ∧
+    ((propagateInproc { demoCfg with maxlen := 3 } 2 demoStep true false demoStore ⟨.user 1, some 1, false⟩).map
+      (fun o => (o.res.es.map (·.order), o.res.success))) = some ([3, 5, 7], false) ∧
+    ((propagateInproc { demoCfg with maxlen := 4 } 2 demoStep false false demoStore ⟨.user 1, some 1, false⟩).map
+      (fun o => (o.res.es.map (·.order), o.res.success))) = some ([3, 5, 7, 9], true) ∧
+    ((propagateInproc { demoCfg with maxlen := 9 } 2 demoStep false false demoStore ⟨.user 1, some 1, false⟩).map
+      (fun o => (o.res.es.map (·.order), o.res.success))) = some ([3, 5, 7, 9], true) ∧ (0 : Nat) < 2 := by
   decide +kernel
 
 end Infretis.C12
